@@ -9,13 +9,16 @@ from vf import watchdog, noise_h, simloop, tracecheck
 from vf.tlc import parse_tagged
 
 
-def honest_frames(dev_name: str, plens: list[int], hp: int = 0) -> list[dict]:
+MAC_EXT = b"aabbccddeeff\x00"  # newer devices append their MAC address to the server hello: name NUL mac NUL
+
+
+def honest_frames(dev_name: str, plens: list[int], hp: int = 0, mac: bool = False) -> list[dict]:
     def fr(k, blen, **kw):
         d = dict(k=k, blen=blen, claim=blen, proto=0, name="none", marker=1, key="good", nonce=0, idx=0, integ="ok")
         d.update(kw)
         return d
 
-    nl = 0 if dev_name == "none" else len(dev_name) + 1
+    nl = 0 if dev_name == "none" else len(dev_name) + 1 + (len(MAC_EXT) if mac else 0)
     out = [fr("hello", 1 + nl, proto=1, name=dev_name), fr("hs", 49 + hp, name="ok")]
     for i, p in enumerate(plens, 1):
         out.append(fr("data", 20 + p, nonce=i - 1, idx=i))
@@ -90,6 +93,7 @@ def record_trace(rng: random.Random, deviate: bool, big: bool, with_writes: bool
          {"dev": "other-name", "exp": "none"}, {"dev": "", "exp": "none"}] + ([] if deviate else [{"dev": "oth", "exp": "dev"}, {"dev": "", "exp": "dev"}])
     )
     nm = dict(nm, hp=rng.choice((0, 0, 1, 16, 300)))  # payload attached to the responder's handshake message
+    mac = nm["dev"] != "none" and rng.random() < 0.4      # the server hello carries more than the name
     m = rng.randrange(0, 21 if big else 6)
     mode = rng.randrange(5)
     plens = []
@@ -98,12 +102,12 @@ def record_trace(rng: random.Random, deviate: bool, big: bool, with_writes: bool
         plens.append(rng.randrange(0, 8) if r < 0.5 else rng.choice((127, 128, 255, 256, 1000, 4000)) if r < 0.85 else rng.randrange(20000, 65000))
     if mode == 4:
         plens.insert(rng.randrange(0, len(plens) + 1), rng.randrange(30000, 65000))  # enough ciphertext to find look-alike chunks in
-    honest = honest_frames(nm["dev"], plens, nm["hp"])
+    honest = honest_frames(nm["dev"], plens, nm["hp"], mac)
     dev = random_dev(rng, len(honest)) if deviate else {"k": "none", "i": 0}
     frames = apply_dev(honest, dev)
     loop = simloop.new_loop()
     try:
-        s = noise_h.NoiseSession(rng, nm["dev"], nm["exp"], loop, hp=nm["hp"])
+        s = noise_h.NoiseSession(rng, nm["dev"], nm["exp"], loop, hp=nm["hp"], mac=mac)
         stream = s.stream(frames, dev["k"])
         # cut positions
         L = len(stream)
